@@ -46,6 +46,7 @@ rowblk = z3.Function('rowblk', Mat, I, I, Mat)       # A[j*r:(j+1)*r, :]
 colsel = z3.Function('colsel', Mat, I, I, Mat)       # A[:, j::n]
 cmulR = z3.Function('cmulR', Core, Mat, Core)        # np.einsum('ijq,ql', G, U)  (core times matrix on the right bond)
 fro = z3.Function('fro', Core, R)                    # np.linalg.norm(G)  (Frobenius norm of a core)
+foldLC = z3.Function('foldLC', Mat, I, I, Core)      # A.reshape(r1, n, cols(A))  (C order: a row permutation of foldL)
 msum = z3.Function('msum', Core, Mat)                # np.sum(G, axis=1)
 wsum = z3.Function('wsum', Core, z3.ArraySort(I, R), Mat)   # np.einsum('rmq,m->rq', G, p)
 chain = z3.Function('chain', TT, IDX, I, Mat)        # sl(Y[0],i0) @ ... @ sl(Y[k],ik)
@@ -223,6 +224,11 @@ GROUPS['unfold'] = [
     A([a_, j_, m_], z3.And(rows(rowblk(a_, j_, m_)) == m_, cols(rowblk(a_, j_, m_)) == cols(a_)), [rowblk(a_, j_, m_)]),
     A([a_, j_, n_], rows(colsel(a_, j_, n_)) == rows(a_), [colsel(a_, j_, n_)]),
     A([G_, a_], unfL(cmulR(G_, a_)) == mm(unfL(G_), a_), [cmulR(G_, a_)]),
+    # C-order fold: the left unfolding is a row permutation of A, so its Gram matrix is that of A
+    A([a_, m_, n_], z3.And(d0(foldLC(a_, m_, n_)) == m_, d1(foldLC(a_, m_, n_)) == n_, d2(foldLC(a_, m_, n_)) == cols(a_)),
+      [foldLC(a_, m_, n_)]),
+    A([a_, m_, n_], z3.Implies(z3.And(m_ >= 1, n_ >= 1, rows(a_) == mulI(m_, n_)),
+                               mm(tr(unfL(foldLC(a_, m_, n_))), unfL(foldLC(a_, m_, n_))) == mm(tr(a_), a_)), [foldLC(a_, m_, n_)]),
     A([G_, a_, j_], sl(cmulR(G_, a_), j_) == mm(sl(G_, j_), a_), [sl(cmulR(G_, a_), j_)]),
 ]
 
